@@ -10,6 +10,7 @@ import (
 	"strings"
 
 	"golang.org/x/tools/go/ssa"
+	"verifcheck/internal/prog"
 	"verifcheck/internal/report"
 	"verifcheck/internal/tab"
 )
@@ -328,9 +329,50 @@ func (c *Ctx) A4(rule string) []report.Obligation {
 			dual = "array|object"
 		case n.Kinds[tab.KArray] && n.Kinds[tab.KString]:
 			dual = "string|array"
+		case n.Kinds[tab.KObject] && (n.Kinds[tab.KString] || n.Kinds[tab.KInt] || n.Kinds[tab.KNumber] || n.Kinds[tab.KBool]):
+			dual = "scalar|object"
+		case n.Kinds[tab.KArray] && (n.Kinds[tab.KInt] || n.Kinds[tab.KNumber] || n.Kinds[tab.KBool]):
+			dual = "scalar|array"
 		}
 		if dual != "" {
 			o := report.Obligation{Rule: rule + "-merge", Key: TMerge + " :: " + sp}
+			if tr := c.findRow(c.tabTransformers(), sp); tr != nil && tr.Fn != nil && row == nil && dual == "scalar|object" {
+				// the transformer registered at this very path turns the scalar spelling into a mapping
+				builds := false
+				for _, r := range returnsOf(tr.Fn) {
+					v := retValue(r, 0)
+					if mi, isMI := v.(*ssa.MakeInterface); isMI {
+						v = mi.X
+					}
+					if _, isMk := v.(*ssa.MakeMap); isMk {
+						builds = true
+					}
+				}
+				if builds {
+					o.Status, o.Pos = report.Discharged, tr.Pos
+					o.Why = "schema admits " + dual + "; canonical transformer " + tr.Func + " turns the scalar spelling into a mapping before files are merged"
+					out = append(out, o)
+					continue
+				}
+			}
+			if i := strings.LastIndex(sp, "."); i > 0 && row == nil && strings.HasPrefix(dual, "scalar|") {
+				// each file is brought to canonical form before it is merged: when the transformer of the enclosing
+				// mapping rewrites this very key, the merge only ever sees one kind
+				if tr := c.findRow(c.tabTransformers(), sp[:i]); tr != nil && tr.Fn != nil {
+					rewrites := false
+					for _, k := range constMapUpdateKeys(tr.Fn) {
+						if k == sp[i+1:] {
+							rewrites = true
+						}
+					}
+					if rewrites {
+						o.Status, o.Pos = report.Discharged, tr.Pos
+						o.Why = "schema admits " + dual + "; canonical transformer " + tr.Func + " rewrites `" + sp[i+1:] + "` to one spelling before files are merged"
+						out = append(out, o)
+						continue
+					}
+				}
+			}
 			if row != nil {
 				o.Status, o.Pos = report.Discharged, row.Pos
 				o.Why = "schema admits " + dual + "; converting merger " + row.Func + " (" + c.mergerClass(row.Fn) + ")"
@@ -469,6 +511,33 @@ func (c *Ctx) ancestorDecoder(sp string) *tab.ModelNode {
 	return nil
 }
 
+// decoderAsserts: the basic types a hand-written decoder asserts for the member it looks up under the constant key.
+func decoderAsserts(dec *ssa.Function, key string) map[string]bool {
+	out := map[string]bool{}
+	if dec == nil {
+		return out
+	}
+	for _, b := range dec.Blocks {
+		for _, in := range b.Instrs {
+			ta, ok := in.(*ssa.TypeAssert)
+			if !ok {
+				continue
+			}
+			lk := lookupOf(ta.X, 3)
+			if lk == nil {
+				continue
+			}
+			if k, _ := prog.ConstString(lk.Index); k != key {
+				continue
+			}
+			if bt, isB := ta.AssertedType.Underlying().(*types.Basic); isB {
+				out[bt.Name()] = true
+			}
+		}
+	}
+	return out
+}
+
 // goScalarKind names the scalar Go kind of a model type ("" when not a scalar).
 func goScalarKind(t types.Type) string {
 	if t == nil {
@@ -601,7 +670,8 @@ func (c *Ctx) A5(rule string) []report.Obligation {
 	}
 	sort.Strings(hk)
 	c.Notef("decode-time cast hook converts strings to Go kinds %v", hk)
-	fits := func(castKind, goKind string) bool {
+	var fits func(castKind, goKind string) bool
+	fits = func(castKind, goKind string) bool {
 		if castKind == "" {
 			return false
 		}
@@ -616,6 +686,27 @@ func (c *Ctx) A5(rule string) []report.Obligation {
 			}
 		}
 		return false
+	}
+	// inside a value decoded by hand no numeric conversion happens: the caster must yield the very type the decoder
+	// asserts for that member (`hard.(int)`), else exactly the Go kind of the field
+	loose := fits
+	fits = func(castKind, goKind string) bool { return loose(castKind, goKind) }
+	fitsAt := func(sp, castKind, goKind string) bool {
+		ad := c.ancestorDecoder(sp)
+		if ad == nil || castKind == "" {
+			return loose(castKind, goKind)
+		}
+		segs := strings.Split(sp, ".")
+		want := decoderAsserts(ad.Decoder, segs[len(segs)-1])
+		if len(want) == 0 {
+			want = map[string]bool{goKind: true}
+		}
+		for _, ck := range strings.Split(castKind, "|") {
+			if !want[ck] {
+				return false
+			}
+		}
+		return true
 	}
 	for _, sp := range d.schema.Paths() {
 		n := d.schema.Nodes[sp]
@@ -643,7 +734,7 @@ func (c *Ctx) A5(rule string) []report.Obligation {
 			}
 		case gk == "":
 			continue // not a scalar in the model (e.g. a struct or list): other rules
-		case row != nil && fits(c.castResultKind(row.Fn), gk):
+		case row != nil && fitsAt(sp, c.castResultKind(row.Fn), gk):
 			o.Status, o.Pos = report.Discharged, row.Pos
 			o.Why = fmt.Sprintf("cast row %s yields %s for Go %s", row.Func, c.castResultKind(row.Fn), gk)
 		case row != nil:
@@ -680,7 +771,7 @@ func (c *Ctx) A5(rule string) []report.Obligation {
 				o.Status, o.Why = report.Discharged, "model type decodes through "+c.P.FuncID(mn.Decoder)
 			case goScalarKind(mn.Type) == "":
 				o.Status, o.Why = report.Info, "model type "+mn.TypeStr+" is not a scalar"
-			case fits(ck, goScalarKind(mn.Type)):
+			case fitsAt(sp, ck, goScalarKind(mn.Type)):
 				o.Status, o.Why = report.Discharged, fmt.Sprintf("cast yields %s, model is Go %s", ck, goScalarKind(mn.Type))
 			default:
 				o.Status, o.Why = report.Violation, fmt.Sprintf("cast yields %s, model is Go %s", ck, goScalarKind(mn.Type))
@@ -704,4 +795,10 @@ func (c *Ctx) coveringTransformer(t *tab.Table, sp string) *tab.Row {
 		}
 	}
 	return nil
+}
+
+// tabTransformers: the canonical transformer table (nil-safe for findRow when it cannot be read).
+func (c *Ctx) tabTransformers() *tab.Table {
+	var sink []report.Obligation
+	return c.table("A4", TTransform, &sink)
 }
